@@ -13,6 +13,7 @@ RULE = ("geometry grid N,C<=2; H,W<=6; k,s<=3; p,d<=2 per axis with >=1 window (
         "bounds sanitizer on every as_strided view, crash containment. distinct key = geometry + layout + argument form; non-trivial = more "
         "than one window and kernel > 1 on some axis")
 RULE += (" Added after the seeded rounds: Fortran / transposed / strided / newaxis-built inputs; the caller's column matrix and image unchanged by every variant; image sides 253..257 (thorough: 65534/65535) with padding; integer / bool images with fractional pad values (the variants must agree with each other).")
+RULE += (" Round 6 / reach monitor: geometries whose column matrix is square (N*L == C*kH*kW).")
 ASSUMPTIONS = ["the adjoint identity is checked with pad_value 0 (with another pad value im2col is affine, not linear)",
                "reference layout: channel-major rows (c,kh,kw), row-major blocks (lh,lw), columns of the 2-D layout ordered block-major then batch"]
 SHARD_TIMEOUT = {"quick": 900, "thorough": 3600}
